@@ -1,9 +1,29 @@
-"""Compiled half of C06 (filled in with the compiled-runtime machinery)."""
+"""Compiled half of C06: every scheduled vertex inside the horizon executes the step function exactly once."""
+from vf.common import seed
+from vf.fcomp import all_sources
+from vf.props.c07 import _collect
 
 
 def run(tier, rep, pool):
-    rep.section("compiled_half", status="not built yet")
+    sd = seed()
+    srcs = all_sources(tier, sd)
+    if tier == "quick":
+        srcs = [s for i, s in enumerate(srcs) if (i + sd) % 3 == 0]
+    tasks = []
+    for i, s in enumerate(srcs):
+        full = tier == "thorough"
+        tasks.append(dict(src=s, modes=("MCS", "GENERATIONAL", "TOPOLOGICAL") if full else (("MCS", "GENERATIONAL", "TOPOLOGICAL")[i % 3],), prunes=(True, False) if full else (bool(i % 2),),
+                          disable_jit=(i % 5 == 0), eager=True))
+    results = list(pool.imap("vf.compiled_tasks", "c06c_task", tasks))
+    _collect(rep, results, "compiled_half")
+    rep.section("compiled_drivers", drivers=["rollout (jit; lax.scan over generations when uniform)", "run x2 (eager)", "reset/step with overrides on odd steps (jit)", "run under jax.disable_jit (every 5th source)"],
+                counted_runs=sum(r["traces"] for r in results))
 
 
 def replay(body):
-    return True
+    from vf.compiled_tasks import c06c_task
+
+    rp = body["replay"]
+    r = c06c_task(dict(src=rp["src"], modes=[rp["mode"]], prunes=[rp["prune"]], disable_jit=rp.get("driver") == "run-disable_jit"))
+    print("violations:", [(s, str(w)[:400]) for s, w, _ in r["violations"]][:6])
+    return not r["violations"]
